@@ -507,7 +507,7 @@ def unit_hyp(rec: Rec, n: int, offset: int, side: str) -> None:
 
 
 def units(tier: str, seed: int) -> list[Unit]:
-    n = 60 if tier == "quick" else 1500
+    n = 150 if tier == "quick" else 1500
     us = [Unit(f"client{i}", unit_hyp, {"n": n, "offset": i, "side": "client"}) for i in range(10)]
     us += [Unit(f"server{i}", unit_hyp, {"n": n, "offset": 40 + i, "side": "server"}) for i in range(6)]
     us += [Unit(f"backpressure{i}", unit_backpressure, {"n": max(20, n // 2), "offset": 80 + i}) for i in range(4)]
